@@ -39,13 +39,13 @@ CODEC = ["FunctionCode::{to_byte,from_byte}", "RequestType::from_u8", "ResponseS
          "TelegramTx::{send_data_telegram,send_token_telegram,send_short_confirmation}"]
 
 # ---- C09 -------------------------------------------------------------------------------------
-h("c09_fc_all_bytes", "fdl_telegram.rs", TG, ["C09"], timeout_s=120, functions=CODEC[:5],
+h("c09_fc_all_bytes", "fdl_telegram.rs", TG, ["C09"], timeout_s=600, functions=CODEC[:5],
   bounds="all 256 byte values", obligation="every byte decodes or is rejected; decodable bytes re-encode to themselves; bit layout == reference")
-h("c09_fc_all_values", "fdl_telegram.rs", TG, ["C09"], timeout_s=120, functions=CODEC[:5],
+h("c09_fc_all_values", "fdl_telegram.rs", TG, ["C09"], timeout_s=600, functions=CODEC[:5],
   bounds="all 4x12 request and 4x9 response function codes", obligation="decode(encode(fc)) == fc, encode(fc) == reference layout")
-h("c09_frame_length_arithmetic", "fdl_telegram.rs", TG, ["C09"], timeout_s=120, functions=["DataTelegramHeader::telegram_len"],
+h("c09_frame_length_arithmetic", "fdl_telegram.rs", TG, ["C09"], timeout_s=600, functions=["DataTelegramHeader::telegram_len"],
   bounds="all payload lengths up to the frame limit (LE <= 249), all SAP combinations", obligation="telegram_len == reference frame length")
-h("c09_token_and_sc_roundtrip", "fdl_telegram.rs", TG, ["C09"], timeout_s=120, functions=CODEC[7:],
+h("c09_token_and_sc_roundtrip", "fdl_telegram.rs", TG, ["C09"], timeout_s=600, functions=CODEC[7:],
   bounds="all DA/SA bytes 0..255, 0..5 trailing bytes", obligation="token and SC frames equal the reference and decode back identically")
 h("c09_data_roundtrip_content_q", "fdl_telegram.rs", TG, ["C09"], timeout_s=600, functions=CODEC,
   bounds="payload 0..=8 bytes fully symbolic, DA/SA 0..127, DSAP/SSAP any Option<u8>, any function code, 0.. trailing bytes; unwind 23",
@@ -82,7 +82,7 @@ h("c10_single_byte_corruption_q", "fdl_telegram.rs", TG, ["C10"], timeout_s=900,
   obligation="a frame with one substituted byte is never accepted")
 h("c10_single_byte_corruption_t", "fdl_telegram.rs", TG, ["C10"], tier="thorough", timeout_s=3600, mem_gb=12, weight=2, functions=CODEC,
   bounds="payload 0..=32 symbolic bytes; otherwise as _q; unwind 47", obligation="as c10_single_byte_corruption_q")
-h("c10_sc_corruption", "fdl_telegram.rs", TG, ["C10"], timeout_s=120, functions=DEC,
+h("c10_sc_corruption", "fdl_telegram.rs", TG, ["C10"], timeout_s=600, functions=DEC,
   bounds="all 255 substitutions of the SC byte", obligation="a corrupted short confirmation is never accepted as a telegram")
 
 # ---- C17 (diagnostics.rs part) -----------------------------------------------------------------
@@ -98,9 +98,9 @@ h("c17_iter_blocks_logging_q", "dp_diagnostics.rs", DG, ["C17"], panic_props=["C
   stubs=["log::__private_api::loc -> static location (Location::caller unsupported by Kani)"],
   bounds="as c17_iter_blocks_q with log::set_max_level(Trace): every log argument expression is evaluated (no-op logger, nothing formatted)",
   obligation="as c17_iter_blocks_q, with logging enabled")
-h("c17_iter_no_buffer", "dp_diagnostics.rs", DG, ["C17"], panic_props=["C17", "C05"], timeout_s=120, functions=DIAGF,
+h("c17_iter_no_buffer", "dp_diagnostics.rs", DG, ["C17"], panic_props=["C17", "C05"], timeout_s=600, functions=DIAGF,
   bounds="peripheral without diagnostics buffer", obligation="iterating yields nothing and does not panic")
-h("c17_fill_q", "dp_diagnostics.rs", DG, ["C17"], timeout_s=300, functions=["ExtendedDiagnostics::fill"],
+h("c17_fill_q", "dp_diagnostics.rs", DG, ["C17"], timeout_s=600, functions=["ExtendedDiagnostics::fill"],
   bounds="buffer capacity 0..=8, previous fill level, data length 0..=8, all symbolic; unwind 10",
   obligation="stored iff a buffer exists and the data fits; stored bytes == data; otherwise length and bytes unchanged")
 h("c17_fill_t", "dp_diagnostics.rs", DG, ["C17"], tier="thorough", timeout_s=1800, functions=["ExtendedDiagnostics::fill"],
@@ -113,7 +113,7 @@ PERF = ["Peripheral::{transmit_telegram,receive_reply,send_diagnostics_request,h
         "FrameCountBit::{cycle,reset,fcb,fcv}", "FunctionCode::{new_srd_low,new_srd_high,to_byte}",
         "TelegramTx::send_data_telegram", "DataTelegramHeader::serialize", "ExtendedDiagnostics::fill",
         "DiagnosticFlags (bitflags)", "FdlActiveStation::new, parameters()"]
-h("c03_inv_initial", "dp_peripheral.rs", PV, ["C03", "C08"], timeout_s=120, functions=["Peripheral::new", "Peripheral::request_diagnostics"],
+h("c03_inv_initial", "dp_peripheral.rs", PV, ["C03", "C08"], timeout_s=600, functions=["Peripheral::new", "Peripheral::request_diagnostics"],
   bounds="any address <= 125, any FDL parameters", obligation="Inv_DP holds for a new peripheral and is preserved by user calls; new peripheral starts offline with FCB=First")
 h("c03_transmit_step_q", "dp_peripheral.rs", PV, ["C03", "C04", "C08", "C14"], panic_props=["C03", "C04", "C05"], timeout_s=1200, mem_gb=10, weight=2, functions=PERF,
   bounds="one transmit_telegram from ANY peripheral state under Inv_DP: state, retry_count, fcb, diag_needed, options (ident, sync, freeze, groups), user prm 0..=4 B / config 0..=4 B / outputs 0..=4 B (content symbolic, presence symbolic), FDL address, min_tsdr, watchdog factors, max_retry_limit 1..15, Operate/Clear, high-prio flag; unwind 24",
@@ -214,7 +214,7 @@ for nm, k in [("l2_use_token_0apps", 0), ("l2_use_token_1app", 1), ("l2_use_toke
 for nm, k in [("l2_await_data_response_1app", 1), ("l2_await_data_response_2apps", 2)]:
     l2(nm, ADF, ["C01", "C02", "C05", "C06", "C13", "C15"], "universal C01 obligations; admission: only SC or a response telegram from the awaited address to this station is delivered, once, to the application that sent; anything else => ActiveIdle without callback; time-out after a silent slot delivered once to the sender, then the token is used again at once (guaranteed cycle counted as used); at most one of reply/time-out; 0..1 buffered telegram; Inv_FDL preserved" + "; exactly %d application(s)" % k, log_variant=(k == 2), weight=2, timeout_s=1800, unwind=10)
 # ---- C20: gsd-parser parameter packing (external crate, public API) ----------------------------------
-h("c20_kernel", "harness.rs", "harness", ["C20"], crate="ext-gsd", timeout_s=300, functions=["UserPrmDataType::{write_value_to_slice,size}"],
+h("c20_kernel", "harness.rs", "harness", ["C20"], crate="ext-gsd", timeout_s=600, functions=["UserPrmDataType::{write_value_to_slice,size}"],
   bounds="ALL 8 data types (bit index 0..7, bit areas first<=last<=7), ALL i64 values, ALL 4-byte windows",
   obligation="Ok iff value in the type's exact range (signed types: signed range); on Ok the parameter's bits == big-endian two's complement of the value and no other bit changes (BitArea's 'no other bit' part is carved out: known finding F9, asserted by c20_kernel_bitarea_frame_witness); on Err the window is unchanged; size() consistent")
 h("c20_builder_min", "harness.rs", "harness", ["C20"], crate="ext-gsd", timeout_s=1500, mem_gb=12, weight=2, stubbing=True,
@@ -222,7 +222,7 @@ h("c20_builder_min", "harness.rs", "harness", ["C20"], crate="ext-gsd", timeout_
   stubs=["std::sync::Arc::drop_slow -> no-op (all Arcs leaked on purpose)"],
   bounds="2 symbolic constant bytes, one Unsigned8 parameter 'a' at offset 1 with symbolic MinMax constraint, symbolic default, one-entry text table with symbolic value; one set_prm or set_prm_from_text call with known/unknown name and text and symbolic value; unwind 6",
   obligation="new(): Err iff the default does not fit; block == constants overlaid with the default; set_prm/set_prm_from_text: Ok iff name and text known, range admits, value fits; block afterwards changed in exactly the parameter's byte, unchanged on error")
-h("c20_kernel_bitarea_frame_witness", "harness.rs", "harness", ["C20"], crate="ext-gsd", timeout_s=300, functions=["UserPrmDataType::write_value_to_slice"],
+h("c20_kernel_bitarea_frame_witness", "harness.rs", "harness", ["C20"], crate="ext-gsd", timeout_s=600, functions=["UserPrmDataType::write_value_to_slice"],
   bounds="ALL bit areas, ALL accepted values, ALL bytes", obligation="witness of known finding F9: writing a bit area changes no bit outside the area")
 
 # ---- C16: receive helpers ----------------------------------------------------------------------------
